@@ -32,7 +32,26 @@ def install_std(it):
     it.ext_modules["collections"] = Namespace(
         "collections", ChainMap=Native(lambda ex, *maps: dict(collections.ChainMap(*[dict(m) for m in maps])), "collections.ChainMap (first mapping wins; contract of the stdlib class)"), Counter=TypeTag("Counter", lambda o: isinstance(o, collections.Counter),
                                        lambda ex, a=None: collections.Counter(a) if a is not None else collections.Counter()))
-    it.ext_modules["functools"] = Namespace("functools", wraps=Native(lambda ex, f: Native(lambda ex2, g: g, "wraps-inner"), "wraps"))
+    def _cache(ex, f=None, **_kw):
+        """contract of functools.cache / lru_cache(maxsize=None): the value of the first call with equal arguments is returned again"""
+        if f is None:  # lru_cache(maxsize=...) used with arguments
+            return Native(lambda ex2, g: _cache(ex2, g), "lru_cache(...)")
+        memo = {}
+
+        def call(ex2, *a, **k):
+            def hk(x):
+                try:
+                    hash(x)
+                    return x
+                except TypeError:
+                    return ("id", id(x))
+            key = (tuple(hk(x) for x in a), tuple(sorted((n, hk(v)) for n, v in k.items())))
+            if key not in memo:
+                memo[key] = ex2.call(f, list(a), k)
+            return memo[key]
+        return Native(call, f"cached {getattr(f, 'qualname', f)}")
+    it.ext_modules["functools"] = Namespace("functools", wraps=Native(lambda ex, f: Native(lambda ex2, g: g, "wraps-inner"), "wraps"),
+                                            cache=Native(_cache, "functools.cache"), lru_cache=Native(_cache, "functools.lru_cache"))
 
 
 class Pair:
@@ -165,6 +184,7 @@ class World:
                      dh_dmom=mk("dh_dmom", ["pos", "mom"]), h=Native(h, "system.h"))
         if constrained:
             attrs["project_onto_cotangent_space"] = Native(project, "system.project_onto_cotangent_space")
+        attrs["__any_class__"] = True  # the integrator contracts are for every compatible system class (isinstance tests fork)
         return Opaque("system", **attrs)
 
     # ---- contract stubs handed to the integrators --------------------------------------------------
